@@ -6,11 +6,15 @@ import "time"
 type TimerHandle struct{ tm *timer }
 
 // AfterFunc registers fn to run in its own thread once virtual time has advanced by d.
+//
+//go:norace
 func (x *Exec) AfterFunc(d time.Duration, name string, fn func()) *TimerHandle {
 	return &TimerHandle{tm: x.addTimer(d, name, fn)}
 }
 
 // Stop deactivates the timer; reports whether it was still pending.
+//
+//go:norace
 func (h *TimerHandle) Stop() bool {
 	was := h.tm.active
 	h.tm.active = false
@@ -21,6 +25,8 @@ func (h *TimerHandle) Stop() bool {
 }
 
 // Reset re-arms the timer d from now.
+//
+//go:norace
 func (h *TimerHandle) Reset(x *Exec, d time.Duration) bool {
 	was := h.tm.active
 	h.tm.active = false
@@ -28,9 +34,12 @@ func (h *TimerHandle) Reset(x *Exec, d time.Duration) bool {
 	return was
 }
 
+//go:norace
 func (h *TimerHandle) Active() bool { return h.tm.active }
 
 // PendingTimerNames lists pending timers (diagnostics).
+//
+//go:norace
 func (x *Exec) PendingTimerNames() []string {
 	var out []string
 	for _, tm := range x.pendingTimers() {
